@@ -25,19 +25,30 @@ pub const ST_UNKNOWN_ROLE: u8 = 3;
 
 pub const VAR_NAMES: [&str; 3] = ["FCGI_MAX_CONNS", "FCGI_MAX_REQS", "FCGI_MPXS_CONNS"];
 
-#[derive(Debug, Clone, PartialEq, Eq)]
+#[derive(Debug, Clone)]
 pub struct Rec {
     pub version: u8,
     pub rtype: u8,
     pub id: u16,
     pub content: Vec<u8>,
     pub padding: u8,
+    /// Value of the reserved header byte and of every padding byte (clients may send anything there;
+    /// not part of record equality).
+    pub reserved: u8,
+    pub pad_fill: u8,
 }
+
+impl PartialEq for Rec {
+    fn eq(&self, o: &Rec) -> bool {
+        self.version == o.version && self.rtype == o.rtype && self.id == o.id && self.content == o.content && self.padding == o.padding
+    }
+}
+impl Eq for Rec {}
 
 impl Rec {
     pub fn new(rtype: u8, id: u16, content: Vec<u8>, padding: u8) -> Rec {
         assert!(content.len() <= 65535);
-        Rec { version: 1, rtype, id, content, padding }
+        Rec { version: 1, rtype, id, content, padding, reserved: 0, pad_fill: 0 }
     }
     pub fn len(&self) -> usize {
         8 + self.content.len() + usize::from(self.padding)
@@ -48,9 +59,9 @@ impl Rec {
         out.extend_from_slice(&self.id.to_be_bytes());
         out.extend_from_slice(&(self.content.len() as u16).to_be_bytes());
         out.push(self.padding);
-        out.push(0);
+        out.push(self.reserved);
         out.extend_from_slice(&self.content);
-        out.extend(std::iter::repeat(0u8).take(self.padding.into()));
+        out.extend(std::iter::repeat(self.pad_fill).take(self.padding.into()));
     }
     pub fn bytes(&self) -> Vec<u8> {
         let mut v = Vec::with_capacity(self.len());
@@ -90,6 +101,8 @@ pub fn decode_all(b: &[u8]) -> (Vec<Rec>, usize) {
             id: u16::from_be_bytes([b[p + 2], b[p + 3]]),
             content: b[p + 8..p + 8 + clen].to_vec(),
             padding: b[p + 6],
+            reserved: b[p + 7],
+            pad_fill: if pad > 0 { b[p + 8 + clen] } else { 0 },
         });
         p += 8 + clen + pad;
     }
